@@ -103,7 +103,7 @@ def twin_of(slot, form):
     return wrap(slot, form, TWIN.encode() if slot.typ == "bytes" else TWIN)
 
 
-# thorough tier: additionally every string of length 4 over this core
+# additionally every string one symbol longer than the full-alphabet bound over this core
 CORE_STR = ["\r", "\n", "\x00", ":", ";", "\u0100", "a"]
 CORE_BYTES = [b"\r", b"\n", b"\x00", b":", b";", b"\xff", b"a"]
 
@@ -435,8 +435,8 @@ class C07(Check):
     level = "exploration"
     design_ref = "DESIGN.md §2 C07"
     rule = ("every string of length <= 2 (quick) / <= 3 (thorough) over {CR LF NUL SP HTAB : ; , \" DEL "
-            "0x80 0xFF U+0100 U+2028 a} (bytes slots: the 13 single-byte symbols), thorough also "
-            "length 4 over {CR LF NUL : ; U+0100 a}, each alone and embedded as ok<s>ok, "
+            "0x80 0xFF U+0100 U+2028 a} (bytes slots: the 13 single-byte symbols), plus length 3 "
+            "(quick) / 4 (thorough) over {CR LF NUL : ; U+0100 a}, each alone and embedded as ok<s>ok, "
             "through each of 30 API slots (set_header/add_header name+value str/bytes, set_status / "
             "HTTPError / send_error reason, redirect url, set_cookie name/value/domain/path/samesite/"
             "legacy kwargs, clear_cookie, set_signed_cookie name, HTTPConnection.write_headers "
@@ -466,7 +466,7 @@ class C07(Check):
 
     def bound(self, tier):
         """(max length over the full alphabet, max length over the 7-symbol core)"""
-        return (2, 0) if tier == "quick" else (3, 4)
+        return (2, 3) if tier == "quick" else (3, 4)
 
     def shards(self, tier):
         return 1 if tier == "quick" else 6
